@@ -191,6 +191,39 @@ def rule_e(ctx):
                     from_ok = bool(vex) and all(mentions(e, lambda x: x[0] == "downcast" and x[2] == "Ok" and deep_strip(x[1])[0] == "call" and deep_strip(x[1])[1] == s1.bb) and
                                                  not mentions(e, lambda x: x[0] == "downcast" and x[2] == "Err") and
                                                  {a for a in v} <= {(s1.bb, s1.op)} for e in vex)
+                    # ... and that snapshot was found non-empty: each snapshot the CAS can compare against (the initial load, the value a
+                    # failed CAS hands back) passes an emptiness test of *that* snapshot, on its non-empty side, on every path to the CAS (a
+                    # test hoisted out of the retry loop lets `CAS(0 -> 0)` succeed and hands out index 0)
+                    from ..conds import switch_edges
+                    untested = []
+                    for src in sorted(exp):
+                        nonzero = set()
+                        for (b2, tgt, lab, exprs, t2) in switch_edges(c):
+                            for ce in exprs:
+                                ce = deep_strip(ce)
+                                val = int(lab[3:]) if lab.startswith("sw:") else None
+                                is_true = (val is not None and val != 0) or (val is None and [v_ for v_, _ in t2["vals"]] == [0])
+                                x = None
+                                if ce[0] == "binop" and ce[1] in ("Eq", "Ne") and (fold(ce[3]) == 0 or fold(ce[2]) == 0):
+                                    if (ce[1] == "Eq") != is_true:
+                                        x = ce[2] if fold(ce[3]) == 0 else ce[3]
+                                elif ce[0] == "binop" and ce[1] == "Gt" and fold(ce[3]) == 0 and is_true:
+                                    x = ce[2]
+                                elif ce[0] == "discr" and mentions(ce, lambda y: y[0] == "call" and y[3] and "NonZero" in y[3]) and (val == 1 or (val is None and 1 not in [v_ for v_, _ in t2["vals"]])):
+                                    x = ce          # `NonZeroU16::new(v)` returned Some
+                                elif ce[0] != "discr" and not (ce[0] == "binop" and ce[1] in ("Eq", "Ne", "Lt", "Le", "Gt", "Ge", "Cmp")) and ((val is not None and val != 0) or (val is None and 0 in [v_ for v_, _ in t2["vals"]])):
+                                    x = ce
+                                if x is not None and src in _snap_sources(c, [x]):
+                                    nonzero.add((b2, tgt))
+                        starts = c.succ(src[0], unwind=False)
+                        r = set()
+                        for st0 in starts:
+                            r |= cfg.reachable_without_edges(c, st0, nonzero, unwind=False)
+                        if s1.bb in r:
+                            untested.append({"snapshot": src, "path": [c.term(x_)["sp"].split("/")[-1] for x_ in (cfg.path(c, starts[0], s1.bb, unwind=False) or [])][:8]})
+                    ctx.check(bool(exp) and not untested, rid, "%s:taken-index-nonzero" % nm,
+                              "%s: every snapshot the CAS can compare against was tested for emptiness (non-empty side) on the way to the CAS" % nm, st["sp"],
+                              {"untested": untested})
                     ctx.check(v == exp or from_ok, rid, "%s:returned-from-expected" % nm, "%s: the returned index is read from the same snapshot the successful CAS replaced" % nm, st["sp"],
                               {"returned_from": sorted(v), "cas_expected_from": sorted(exp),
                                "why": "after a failed CAS the head may have been taken by a nested/concurrent operation; returning the old head hands one index to two owners"})
